@@ -25,6 +25,26 @@ class FakeConfig:
     """EmulationConfig stand-in: the two matching predicates are Pulser's
     definitions (`0<=t<=1 and any(|e-t|<=tol)`) lifted to symbolic scalars."""
 
+    # every other MPSConfig / SVConfig option, so that code reading one of them does not trip over the stub
+    dt = 7.0
+    max_bond_dim = 1024
+    max_krylov_dim = 100
+    extra_krylov_tolerance = 1e-3
+    num_gpus_to_use = 0
+    gpu = False
+    optimize_qubit_ordering = False
+    interaction_cutoff = 0.0
+    log_level = 20
+    log_file = None
+    autosave_prefix = "verif_"
+    autosave_dt = float("inf")
+    solver = "tdvp"
+    initial_state = None
+    with_modulation = False
+    n_trajectories = 1
+    interaction_matrix = None
+    prefer_device_noise_model = False
+
     def __init__(self, observables, default_times):
         self.observables = observables
         self.default_evaluation_times = default_times
